@@ -2,15 +2,26 @@
 use std::fmt::Write as _;
 use std::collections::BTreeMap;
 pub struct Trace { pub out: Option<std::fs::File>, pub buf: String, pub lines: usize, pub kinds: BTreeMap<u64, u64>, pub scenarios: usize,
-    pub notes: BTreeMap<String, u64> }
+    pub notes: BTreeMap<String, u64>, pub written: u64 }
+/// quick-tier traces are tens of MB, thorough ones a few hundred MB
+pub const TRACE_LIMIT: u64 = 3 << 30;
 impl Trace {
-    pub fn new() -> Self { Trace { out: None, buf: String::new(), lines: 0, kinds: BTreeMap::new(), scenarios: 0, notes: BTreeMap::new() } }
+    pub fn new() -> Self { Trace { out: None, buf: String::new(), lines: 0, kinds: BTreeMap::new(), scenarios: 0, notes: BTreeMap::new(), written: 0 } }
     /// start a new scenario; everything written so far is flushed to the file, so that a run that does not
     /// terminate still leaves the trace of what it did
     pub fn scenario(&mut self, name: &str) { self.flush(); let _ = writeln!(self.buf, "@ {}", name); self.scenarios += 1; self.flush(); }
     pub fn flush(&mut self) {
         use std::io::Write as _;
-        if let Some(f) = self.out.as_mut() { let _ = f.write_all(self.buf.as_bytes()); let _ = f.flush(); self.buf.clear(); }
+        if let Some(f) = self.out.as_mut() {
+            let _ = f.write_all(self.buf.as_bytes()); let _ = f.flush();
+            self.written += self.buf.len() as u64; self.buf.clear();
+            // a scenario that produces output without end on the tree under test (a driver that stops making progress):
+            // stop with a marker instead of filling the disk; ./check reports the scenario as a run that did not finish
+            if self.written > TRACE_LIMIT {
+                let _ = f.write_all(b"# TRACE LIMIT exceeded: the scenario above does not finish on this tree\n"); let _ = f.flush();
+                eprintln!("trace limit exceeded"); std::process::exit(5);
+            }
+        }
     }
     pub fn comment(&mut self, s: &str) { let _ = writeln!(self.buf, "# {}", s); }
     pub fn line(&mut self, kind: u64, ins: &[u128], outs: &[u128]) {
